@@ -4,8 +4,10 @@ import PhysisModel.Spec.PatchList
 /-!
 Model of `src/patchlist.rs` (`PatchList::to_string`, `PatchList::from_string`) over UTF-8 byte
 strings, **after** fix `C10-01` (the number after `X-Patch-Length: ` is parsed, not the whole
-header line).  `none` stands for a panic (index out of range, `unwrap` on a failed parse,
-arithmetic overflow in a build with overflow checks); those inputs are C17's subject.
+header line) and, for `from_string`, after fix aa3523f (rows with missing columns or non-numeric
+sizes are skipped, a text with fewer than two lines has no rows: the function cannot panic any
+more and the model always answers `some`).  In `to_string`, `none` stands for a panic (index out
+of range, arithmetic overflow in a build with overflow checks); those inputs are C17's subject.
 Data types are shared with `Spec/PatchList.lean`.
 -/
 namespace Physis.PatchList
@@ -87,7 +89,8 @@ def parsePatchLength (encoded : Bytes) : Nat :=
       | some p => p
       | none => 0
 
-/-- one iteration of the row loop; `none` = panic -/
+/-- `PatchList::parse_entry` on the tab-separated columns of a row; `none` = `None`: the row is
+skipped (a missing column, a size that is not an `i64`) -/
 def parseRow (kind : Kind) (row : Bytes) : Option PatchEntry :=
   let parts := splitByte 9 row
   match kind with
@@ -106,22 +109,15 @@ def parseRow (kind : Kind) (row : Bytes) : Option PatchEntry :=
       | _, _, _ => none
     | _, _, _, _, _, _ => none
 
-def parseRows (kind : Kind) : List Bytes → Option (List PatchEntry)
-  | [] => some []
-  | r :: rest =>
-    match parseRow kind r, parseRows kind rest with
-    | some p, some ps => some (p :: ps)
-    | _, _ => none
+/-- the row loop: `if let Some(entry) = Self::parse_entry(..) { patches.push(entry) }` -/
+def parseRows (kind : Kind) (rows : List Bytes) : List PatchEntry := rows.filterMap (parseRow kind)
 
-/-- `PatchList::from_string` -/
+/-- `PatchList::from_string` (total: always `some`) -/
 def fromString (kind : Kind) (encoded : Bytes) : Option PatchList :=
   let patchLength := parsePatchLength encoded
   let parts := splitCRLF encoded
-  if parts.length < 2 then none else            -- `parts.len() - 2` underflows
-  -- for i in 5..parts.len() - 2
+  -- for i in 5..parts.len().saturating_sub(2)
   let rows := (parts.take (parts.length - 2)).drop 5
-  match parseRows kind rows with
-  | none => none
-  | some patches => some ⟨[], patchLength, [], [], patches⟩
+  some ⟨[], patchLength, [], [], parseRows kind rows⟩
 
 end Physis.PatchList
